@@ -486,7 +486,12 @@ class Builder:
                 idxs = [k for k in range(first_line - 1, last_line)
                         if self.out[k][1].get('kind') == 'src' and self.out[k][1].get('line') and l0 <= self.out[k][1]['line'] <= l1]
                 if idxs:
-                    f['first_line'], f['last_line'] = idxs[0] + 1, idxs[-1] + 1
+                    k0 = idxs[0]
+                    # the spliced header (signature with named return, requires/ensures) precedes the first verbatim source line
+                    while k0 - 1 >= first_line - 1 and self.out[k0 - 1][1].get('kind') == 'contract' and not any(
+                            g is not f and g.get('last_line') == k0 for g in self.fns):
+                        k0 -= 1
+                    f['first_line'], f['last_line'] = k0 + 1, idxs[-1] + 1
 
     # ------------------------------------------------------------------ output
     def text(self):
